@@ -13,7 +13,7 @@ function spec(from, to) {
   return rel.startsWith(".") ? rel : "./" + rel;
 }
 
-function refsOfDecl(d) {
+export function refsOfDecl(d) {
   const out = new Set();
   const f = (x) => {
     if (x.k === "ref") out.add(x.name);
@@ -25,7 +25,7 @@ function refsOfDecl(d) {
   for (const p of d.params || []) out.delete(p);
   return out;
 }
-function refsOfType(t) {
+export function refsOfType(t) {
   const out = new Set();
   mapType(t, (x) => {
     if (x.k === "ref") out.add(x.name);
@@ -36,7 +36,7 @@ function refsOfType(t) {
   return out;
 }
 
-function renameIn(t, map) {
+export function renameIn(t, map) {
   return mapType(t, (x) => {
     if (x.k === "ref" && map.has(x.name)) return { ...x, name: map.get(x.name) };
     if (x.k === "enumMember" && map.has(x.en)) return { ...x, en: map.get(x.en) };
@@ -44,7 +44,7 @@ function renameIn(t, map) {
     return x;
   });
 }
-function renameDecl(d, map) {
+export function renameDecl(d, map) {
   // type parameters shadow
   const m = new Map(map);
   for (const p of d.params || []) m.delete(p);
